@@ -191,6 +191,13 @@ func (j *JSON) Persist() (err error) {
 func (j *JSON) add(file sts.Hashed) {
 	j.dirty = true
 	if existing, ok := j.Files[file.GetName()]; ok {
+		if existing.Size != file.GetSize() ||
+			!existing.Time.Equal(file.GetTime()) ||
+			existing.Hash != file.GetHash() {
+			// A different version of the file: what was confirmed for the
+			// previous one does not carry over
+			existing.Done = false
+		}
 		existing.Size = file.GetSize()
 		existing.Time = marshal.NanoTime{Time: file.GetTime()}
 		existing.Meta = file.GetMeta()
